@@ -21,6 +21,7 @@ RULE = (
     "loss, a gain and a neutral segment and a sex-chromosome row (a), or >= 2 samples (b); distinct = distinct "
     "case JSON."
 )
+CLI_SHARE = 4  # one case in CLI_SHARE also goes through the command line (vk/cli.py)
 QUICK = {"examples": 3200, "shards": 16, "budget_s": 300}
 THOROUGH = {"examples": 24000, "shards": 16, "budget_s": 2400}
 ASSUMPTIONS = [
